@@ -263,6 +263,45 @@ theorem C05_version_fallback (dedup : List DFile → List DFile) (cfg : Cfg) (en
     | unchanged => simp [swapFront, hp]
     | error e' => exact absurd rfl (hout e')
 
+/-- Full characterisation of `Resolver.resolve` over `methodPriority = [a, b]` for ANY pair of
+    per-version results.  With `(ha, la, oa)` what `resolveWithMethod` yields for `a` and `(hb, lb, ob)`
+    for `b` (both started from the same remembered hashes — a failed attempt changes nothing):
+    * `a` delivers (update / unchanged): that outcome, `a`'s hashes, order kept, `b` is not tried;
+    * `a` fails with a code other than Unimplemented: that error is reported, state unchanged, `b` is not tried;
+    * `a` is Unimplemented and `b` delivers: `b`'s outcome and hashes, order becomes `[b, a]`;
+    * `a` is Unimplemented and `b` fails with another code: `b`'s error, state unchanged;
+    * both Unimplemented: the joined error, whose code is Unimplemented, state unchanged.
+    The log lists exactly the methods tried, in order.  (`resolveSpec`, Spec.lean, is this table.) -/
+theorem C05_resolve_priority_spec (dedup : List DFile → List DFile) (cfg : Cfg) (env : Version → Endpoint)
+    (st : RState) (a b : Version) (hp : st.priority = [a, b]) :
+    resolve dedup cfg env st =
+      resolveSpec st a b (resolveWithMethod dedup cfg (env a) st.last) (resolveWithMethod dedup cfg (env b) st.last) := by
+  unfold resolve resolveSpec
+  rw [hp]
+  unfold resolveFrom
+  rcases hra : resolveWithMethod dedup cfg (env a) st.last with ⟨ha, la, oa⟩
+  rcases hrb : resolveWithMethod dedup cfg (env b) st.last with ⟨hb, lb, ob⟩
+  cases oa with
+  | update t => simp [swapFront, hp]
+  | unchanged => simp [swapFront, hp]
+  | error e =>
+    simp only
+    by_cases hc : e.code = codeUnimplemented
+    · simp only [hc, ↓reduceIte]
+      unfold resolveFrom
+      rw [hrb]
+      cases ob with
+      | update t => simp [swapFront, hp]
+      | unchanged => simp [swapFront, hp]
+      | error e2 =>
+        simp only
+        by_cases hc2 : e2.code = codeUnimplemented
+        · simp only [hc2, ↓reduceIte]
+          unfold resolveFrom
+          simp
+        · simp [hc2]
+    · simp [hc]
+
 /-- When every version answers Unimplemented the poll reports an error (never a description). -/
 theorem C05_all_unimplemented (dedup : List DFile → List DFile) (cfg : Cfg) (env : Version → Endpoint)
     (st : RState) (hp : st.priority = [.v1, .v1alpha] ∨ st.priority = [.v1alpha, .v1])
